@@ -1453,6 +1453,286 @@ fn gen_merge(rng: &mut Rng) -> MergeCase {
 
 // ------------------------------------------------------------------------------------------------
 
+// ------------------------------------------------------------------------------------------------
+// Consumer stage: the composition users actually call. `init_market_stream(policy, subscriptions)` is
+// driven with a scripted in-memory exchange (own `Connector` + `StreamSelector` whose `MarketStream::init`
+// succeeds / fails as scripted and stamps the virtual instant of every attempt): the waits between failed
+// re-initialisations must follow THE CALLER'S policy, every connection's items arrive, one notice per drop.
+
+mod consumer_stage {
+    use super::Policy;
+    use async_trait::async_trait;
+    use barter_data::{
+        Identifier, MarketStream, NoInitialSnapshots, SnapshotFetcher,
+        error::DataError,
+        event::MarketEvent,
+        exchange::{Connector, StreamSelector, binance::subscription::BinanceSubResponse, subscription::ExchangeSub},
+        streams::{consumer::init_market_stream, reconnect::{Event, stream::ReconnectionBackoffPolicy}},
+        subscriber::{WebSocketSubscriber, validator::WebSocketSubValidator},
+        subscription::{Subscription, trade::{PublicTrade, PublicTrades}},
+    };
+    use barter_instrument::{Side, exchange::ExchangeId, instrument::market_data::{MarketDataInstrument, kind::MarketDataInstrumentKind}};
+    use barter_integration::{error::SocketError, protocol::websocket::WsMessage};
+    use futures::{Stream, StreamExt};
+    use serde::{Deserialize, Serialize};
+    use std::{collections::{HashMap, VecDeque}, pin::Pin, sync::{Arc, Mutex, OnceLock}, task::{Context, Poll}, time::Duration};
+    use tokio::time::Instant;
+
+    #[derive(Debug, Clone, Copy, PartialEq, Eq, Hash, Serialize, Deserialize)]
+    pub struct Attempt {
+        pub ok: bool,
+        pub items: u8,
+    }
+
+    #[derive(Debug, Clone, PartialEq, Eq, Hash, Serialize, Deserialize)]
+    pub struct ConsumerCase {
+        pub policy: Policy,
+        /// attempt 0 succeeds; a final connection that never ends is appended by the stage
+        pub script: Vec<Attempt>,
+    }
+
+    struct Script {
+        t0: Instant,
+        attempts: VecDeque<Attempt>,
+        /// virtual instant (ms since t0) of every `MarketStream::init` call
+        log: Vec<u64>,
+    }
+
+    fn registry() -> &'static Mutex<HashMap<String, Arc<Mutex<Script>>>> {
+        static R: OnceLock<Mutex<HashMap<String, Arc<Mutex<Script>>>>> = OnceLock::new();
+        R.get_or_init(Default::default)
+    }
+
+    #[derive(Debug, Clone, Default, Serialize, Deserialize)]
+    pub struct FakeEx;
+    pub struct FakeChannel;
+    impl AsRef<str> for FakeChannel {
+        fn as_ref(&self) -> &str {
+            "trade"
+        }
+    }
+    pub struct FakeMarket(String);
+    impl AsRef<str> for FakeMarket {
+        fn as_ref(&self) -> &str {
+            &self.0
+        }
+    }
+    impl Connector for FakeEx {
+        const ID: ExchangeId = ExchangeId::Mock;
+        type Channel = FakeChannel;
+        type Market = FakeMarket;
+        type Subscriber = WebSocketSubscriber;
+        type SubValidator = WebSocketSubValidator;
+        type SubResponse = BinanceSubResponse;
+        fn url() -> Result<url::Url, SocketError> {
+            Err(SocketError::Subscribe("the scripted exchange has no endpoint".into()))
+        }
+        fn requests(_: Vec<ExchangeSub<Self::Channel, Self::Market>>) -> Vec<WsMessage> {
+            vec![]
+        }
+    }
+    impl Identifier<FakeChannel> for Subscription<FakeEx, MarketDataInstrument, PublicTrades> {
+        fn id(&self) -> FakeChannel {
+            FakeChannel
+        }
+    }
+    impl Identifier<FakeMarket> for Subscription<FakeEx, MarketDataInstrument, PublicTrades> {
+        fn id(&self) -> FakeMarket {
+            FakeMarket(self.instrument.base.to_string())
+        }
+    }
+    impl StreamSelector<MarketDataInstrument, PublicTrades> for FakeEx {
+        type SnapFetcher = NoInitialSnapshots;
+        type Stream = FakeStream;
+    }
+
+    pub struct FakeStream {
+        key: MarketDataInstrument,
+        conn: u32,
+        left: u8,
+        next: u32,
+        never_ends: bool,
+    }
+    impl Stream for FakeStream {
+        type Item = Result<MarketEvent<MarketDataInstrument, PublicTrade>, DataError>;
+        fn poll_next(mut self: Pin<&mut Self>, _: &mut Context<'_>) -> Poll<Option<Self::Item>> {
+            if self.left == 0 {
+                return if self.never_ends { Poll::Pending } else { Poll::Ready(None) };
+            }
+            self.left -= 1;
+            self.next += 1;
+            let id = format!("{}:{}", self.conn, self.next);
+            Poll::Ready(Some(Ok(MarketEvent {
+                time_exchange: vharness::fixtures::t(1),
+                time_received: vharness::fixtures::t(1),
+                exchange: ExchangeId::Mock,
+                instrument: self.key.clone(),
+                kind: PublicTrade { id, price: 1.0, amount: 1.0, side: Side::Buy },
+            })))
+        }
+    }
+    #[async_trait]
+    impl MarketStream<FakeEx, MarketDataInstrument, PublicTrades> for FakeStream {
+        async fn init<SnapFetcher>(subscriptions: &[Subscription<FakeEx, MarketDataInstrument, PublicTrades>]) -> Result<Self, DataError>
+        where
+            SnapFetcher: SnapshotFetcher<FakeEx, PublicTrades>,
+            Subscription<FakeEx, MarketDataInstrument, PublicTrades>: Identifier<FakeChannel> + Identifier<FakeMarket>,
+        {
+            let key = subscriptions[0].instrument.clone();
+            let script = registry().lock().unwrap().get(key.base.as_ref()).cloned().expect("script registered");
+            let mut s = script.lock().unwrap();
+            let now = s.t0.elapsed().as_millis() as u64;
+            s.log.push(now);
+            let conn = s.log.len() as u32 - 1;
+            match s.attempts.pop_front() {
+                Some(Attempt { ok: true, items }) => Ok(FakeStream { key, conn, left: items, next: 0, never_ends: false }),
+                Some(Attempt { ok: false, .. }) => Err(DataError::Socket("scripted initialisation failure".into())),
+                None => Ok(FakeStream { key, conn, left: 2, next: 0, never_ends: true }),
+            }
+        }
+    }
+
+    pub struct ConsumerOut {
+        pub attempts_at: Vec<u64>,
+        /// per successful connection (by attempt index): item ids seen, in order
+        pub items: Vec<(u32, Vec<u32>)>,
+        pub notices: u32,
+        pub order: Vec<String>,
+    }
+
+    static NEXT: std::sync::atomic::AtomicU64 = std::sync::atomic::AtomicU64::new(0);
+
+    pub fn run(case: &ConsumerCase) -> Result<ConsumerOut, String> {
+        let rt = tokio::runtime::Builder::new_current_thread().enable_time().start_paused(true).build().map_err(|e| e.to_string())?;
+        let out = rt.block_on(async {
+            let name = format!("c12c{}", NEXT.fetch_add(1, std::sync::atomic::Ordering::Relaxed));
+            let script = Arc::new(Mutex::new(Script { t0: Instant::now(), attempts: case.script.iter().copied().collect(), log: vec![] }));
+            registry().lock().unwrap().insert(name.clone(), script.clone());
+            let sub = Subscription::new(FakeEx, MarketDataInstrument::new(name.as_str(), "usdt", MarketDataInstrumentKind::Spot), PublicTrades);
+            let policy = ReconnectionBackoffPolicy { backoff_ms_initial: case.policy.initial, backoff_multiplier: case.policy.mult, backoff_ms_max: case.policy.max };
+            let res: Result<ConsumerOut, String> = async {
+                let stream = init_market_stream::<FakeEx, MarketDataInstrument, PublicTrades>(policy, vec![sub]).await.map_err(|e| format!("init_market_stream failed although the first attempt succeeds: {e:?}"))?;
+                let mut stream = Box::pin(stream);
+                let mut out = ConsumerOut { attempts_at: vec![], items: vec![], notices: 0, order: vec![] };
+                let final_conn = case.script.len() as u32;
+                // watchdog in virtual time: far beyond every scripted wait
+                let deadline = Duration::from_millis(case.policy.max.saturating_mul(case.script.len() as u64 + 2).saturating_add(3_600_000));
+                let consume = async {
+                    while let Some(ev) = stream.next().await {
+                        match ev {
+                            Event::Reconnecting(_) => {
+                                out.notices += 1;
+                                out.order.push("R".into());
+                            }
+                            Event::Item(Ok(m)) => {
+                                let (c, i) = m.kind.id.split_once(':').map(|(c, i)| (c.parse::<u32>().unwrap_or(u32::MAX), i.parse::<u32>().unwrap_or(0))).unwrap_or((u32::MAX, 0));
+                                out.order.push(format!("{c}:{i}"));
+                                match out.items.last_mut() {
+                                    Some((lc, v)) if *lc == c => v.push(i),
+                                    _ => out.items.push((c, vec![i])),
+                                }
+                                if c == final_conn && i == 2 {
+                                    break;
+                                }
+                            }
+                            Event::Item(Err(e)) => out.order.push(format!("E({e})")),
+                        }
+                    }
+                };
+                if tokio::time::timeout(deadline, consume).await.is_err() {
+                    out.order.push("WATCHDOG".into());
+                }
+                out.attempts_at = script.lock().unwrap().log.clone();
+                Ok(out)
+            }
+            .await;
+            registry().lock().unwrap().remove(&name);
+            res
+        });
+        rt.shutdown_background();
+        out
+    }
+
+    /// Oracle: the statement's recurrence on the CALLER'S policy, per-connection items, one notice per drop.
+    pub fn judge(case: &ConsumerCase, out: &ConsumerOut) -> Result<(u64, Vec<&'static str>), (&'static str, String)> {
+        let mut cells = vec!["consumer:init_market_stream"];
+        let mut checks = 0u64;
+        let n = case.script.len();
+        if out.order.last().map(|s| s.as_str()) == Some("WATCHDOG") || out.attempts_at.len() != n + 1 {
+            return Err(("reconnecting_stream_stopped_retrying", format!("{} initialisation attempts observed for a script of {} (+ the final connection); tail of events {:?}", out.attempts_at.len(), n, &out.order[out.order.len().saturating_sub(6)..])));
+        }
+        let mut fails = 0u32;
+        for k in 1..=n {
+            checks += 1;
+            let prev = case.script[k - 1];
+            let got = out.attempts_at[k] - out.attempts_at[k - 1];
+            if prev.ok {
+                fails = 0;
+                if got != 0 {
+                    return Err(("wait_before_reinitialising_after_a_connection_ended", format!("attempt #{k} started {got} ms after connection #{} ended (expected immediately)", k - 1)));
+                }
+            } else {
+                let want = case.policy.wait(fails);
+                if got != want {
+                    let sig = if fails == 0 { "backoff_first_wait_wrong" } else { "backoff_growth_or_cap_wrong" };
+                    return Err((sig, format!("init_market_stream with policy {:?}: wait after consecutive failure #{} = {got} ms, the caller's policy says {want} ms (attempt instants {:?})", case.policy, fails + 1, out.attempts_at)));
+                }
+                if fails >= 1 {
+                    cells.push("consumer:custom_policy_growth_observed");
+                }
+                fails += 1;
+            }
+        }
+        // items of every successful connection, in order, exactly once; one notice per ended connection
+        let mut want_items: Vec<(u32, Vec<u32>)> = case.script.iter().enumerate().filter(|(_, a)| a.ok && a.items > 0).map(|(k, a)| (k as u32, (1..=a.items as u32).collect())).collect();
+        want_items.push((n as u32, vec![1, 2]));
+        checks += 2;
+        if out.items != want_items {
+            return Err(("connection_items_lost_duplicated_or_reordered", format!("observed {:?} expected {:?}", out.items, want_items)));
+        }
+        let ended = case.script.iter().filter(|a| a.ok).count() as u32;
+        if out.notices != ended {
+            return Err(("reconnecting_notice_missing", format!("{} notices for {ended} ended connections: {:?}", out.notices, out.order)));
+        }
+        Ok((checks, cells))
+    }
+
+    pub fn generate(rng: &mut vharness::Rng) -> ConsumerCase {
+        // policies that differ from the library's default constant in every component
+        let initial = *rng.pick(&[1u64, 7, 300, 2_000]);
+        let mult = *rng.pick(&[1u8, 2, 3, 5]);
+        let max = initial * *rng.pick(&[1u64, 2, 4, 30, 1_000]) + rng.below(3);
+        let mut script = vec![Attempt { ok: true, items: rng.below(4) as u8 }];
+        for _ in 0..rng.range_u(1, 10) {
+            script.push(if rng.chance(3, 5) { Attempt { ok: false, items: 0 } } else { Attempt { ok: true, items: rng.below(4) as u8 } });
+        }
+        ConsumerCase { policy: Policy { initial, mult, max }, script }
+    }
+}
+
+fn execute_consumer(case: &consumer_stage::ConsumerCase, report: &mut Report) {
+    let h = fnv1a(format!("consumer{case:?}").as_bytes());
+    match consumer_stage::run(case) {
+        Err(e) => report.harness_errors.push(format!("consumer stage: {e}")),
+        Ok(out) => {
+            report.events_observed += out.order.len() as u64 + out.attempts_at.len() as u64;
+            match consumer_stage::judge(case, &out) {
+                Ok((checks, cells)) => {
+                    report.oracle_checks += checks;
+                    for c in cells {
+                        report.cover(c);
+                    }
+                    report.case(h, case.script.iter().filter(|a| !a.ok).count() >= 2);
+                }
+                Err((sig, detail)) => {
+                    report.case(h, true);
+                    report.violation(sig, detail, json!({"kind": "consumer", "case": case}));
+                }
+            }
+        }
+    }
+}
+
 fn main() {
     let args = Args::parse();
 
@@ -1464,6 +1744,10 @@ fn main() {
             Some("merge") => {
                 let case: MergeCase = serde_json::from_value(h["case"].clone()).expect("merge case");
                 execute_merge(&case, &mut report);
+            }
+            Some("consumer") => {
+                let case: consumer_stage::ConsumerCase = serde_json::from_value(h["case"].clone()).expect("consumer case");
+                execute_consumer(&case, &mut report);
             }
             _ => {
                 let case: Case = normalize(serde_json::from_value(h["case"].clone()).expect("reconnect case"));
@@ -1482,6 +1766,7 @@ fn main() {
     let n_scripts = if small { 6 } else { args.size(20_000, 5_000_000) };
     let n_merge_random = if small { 20 } else { args.size(20_000, 2_000_000) };
     let merge_len = if args.is_thorough() { 8usize } else { 6 };
+    let n_consumer = if small { 2 } else { args.size(2_000, 200_000) };
 
     let mut report = run_workers(&args, "C12", |w, n, rng, report| {
         if !small {
@@ -1499,6 +1784,10 @@ fn main() {
         for _ in 0..Args::share(n_merge_random, w, n) {
             let case = gen_merge(rng);
             execute_merge(&case, report);
+        }
+        for _ in 0..Args::share(n_consumer, w, n) {
+            let case = consumer_stage::generate(rng);
+            execute_consumer(&case, report);
         }
     });
 
@@ -1539,6 +1828,8 @@ fn main() {
             "merge:mode_drain_end",
             "merge:input_unbounded_rx",
             "merge:input_receiver_stream",
+            "consumer:init_market_stream",
+            "consumer:custom_policy_growth_observed",
         ] {
             report.require(c);
         }
